@@ -1,13 +1,20 @@
 //! gv — the verification harness binary. `gv <Cxx> <quick|thorough>` runs a property check;
 //! `gv <Cxx> <tier> --part P --shard i n` is a worker; `gv <Cxx> --replay file` replays a case.
 #![allow(dead_code)]
+mod alloc;
 mod ev;
 mod par;
 mod c07;
 mod elem;
+mod fp;
 mod refmmr;
+mod uni;
 
 use ev::{Finish, Report, Tier};
+
+#[global_allocator]
+static GLOBAL: alloc::Counting = alloc::Counting;
+
 use serde_json::Value;
 use std::time::Instant;
 
@@ -36,11 +43,19 @@ fn engines() -> Vec<Box<dyn Engine>> {
 
 fn main() {
 	let args: Vec<String> = std::env::args().collect();
+	if args.len() >= 2 && args[1] == "selftest" {
+		selftest();
+		return;
+	}
 	if args.len() < 3 {
 		eprintln!("usage: gv <Cxx> <quick|thorough> | gv <Cxx> --replay <file>");
 		std::process::exit(2);
 	}
 	let prop = args[1].clone();
+	if prop == "selftest" {
+		selftest();
+		return;
+	}
 	let eng = match engines().into_iter().find(|e| e.id() == prop) {
 		Some(e) => e,
 		None => {
@@ -131,4 +146,42 @@ fn main() {
 		parts,
 	);
 	std::process::exit(code);
+}
+
+fn selftest() {
+	use grin_chain::types::Options;
+	use grin_core::core::hash::Hashed;
+	uni::init_thread();
+	let t0 = Instant::now();
+	let sc = uni::Scratch::new("selftest");
+	let kc = uni::keychain(1);
+	let gen = uni::genesis(&kc);
+	let dir = sc.fresh("chain");
+	let chain = uni::open_chain(&dir, &gen);
+	let mut prev = gen.header.clone();
+	let mut blocks = vec![];
+	for i in 1..=5u32 {
+		let b = uni::extend(&chain, &kc, &prev, &uni::BlockSpec::empty(i));
+		prev = b.header.clone();
+		blocks.push(b);
+	}
+	eprintln!("5 blocks in {:?}", t0.elapsed());
+	// spend coinbase 1 at height 6
+	let tx = uni::spend_coinbase(&kc, 1, uni::REWARD, &[(100, uni::REWARD - 1_000_000)], 1);
+	let b6 = uni::extend(&chain, &kc, &prev, &uni::BlockSpec::with(6, vec![tx]));
+	// fork from block 4: 5b 6b 7b
+	let mut fprev = blocks[3].header.clone();
+	for i in 0..3u32 {
+		let b = uni::build_block(&chain, &kc, &fprev, &uni::BlockSpec::empty(50 + i)).unwrap();
+		let r = chain.process_block(b.clone(), Options::NONE);
+		eprintln!("fork block h{} td{} -> {:?}", b.header.height, b.header.total_difficulty().to_num(), r.map(|t| t.map(|t| t.height)));
+		fprev = b.header.clone();
+	}
+	let hashes: Vec<_> = blocks.iter().map(|b| b.hash()).chain(std::iter::once(b6.hash())).collect();
+	let commits = vec![uni::commit_of(&kc, 1, uni::REWARD), uni::commit_of(&kc, 2, uni::REWARD), uni::commit_of(&kc, 100, uni::REWARD - 1_000_000)];
+	let f = fp::chain_fp(&chain, &hashes, &commits);
+	for (k, v) in &f.lines {
+		println!("{} = {}", k, v);
+	}
+	println!("digest {} validate={:?} total {:?}", f.digest(), chain.validate(false), t0.elapsed());
 }
